@@ -17,7 +17,7 @@ package dirhash
 //@     ensures err == nil ==> rc != nil && CONTENT(rc) == FILECONTENT(name)
 //@   end
 //@   let SORTED = files @before loop 0
-//@   modifies ghost.WRITTEN
+//@   modifies ghost.WRITTEN, io.LimitedReader.N
 //@   # the caller's slice is not modified (a copy is sorted): semantic frame on []string
 //@   ensures [C19] h1_formula: result1 == nil ==> result0 == "h1:" + B64(SHA(SUMM(SORTED, len(SORTED))))
 //@   ensures [C19] sorted_copy: result1 == nil ==> len(SORTED) == len(files) && (forall i int, j int :: 0 <= i && i < j && j < len(SORTED) ==> !(SORTED[j] < SORTED[i]))
@@ -28,4 +28,16 @@ package dirhash
 //@     invariant WRITTEN[h] == SUMM(files, @idx + 1)
 //@     invariant forall k int :: 0 <= k && k <= @idx ==> !strings.Contains(files[k], "\n")
 //@     decreases len(files) - @idx
+//@   props C19
+
+//@ # HashDir: the file opened for a listed name prefix+rest is dir joined with rest (and nothing else is opened)
+//@ func HashDir$1
+//@   allocates
+//@   call os.Open requires [C19] opens_listed_file: strings.HasPrefix(name, prefix) ==> arg_name == JOIN2(dir, name[len(prefix):])
+//@   props C19
+
+//@ # HashZip: the entry opened for a name is the entry recorded under that name
+//@ func HashZip$1
+//@   allocates
+//@   call (*zip.File).Open requires [C19] opens_recorded_entry: has(zfiles, name) && arg_f == zfiles[name]
 //@   props C19
